@@ -17,6 +17,8 @@ CHECKS = {
          "Sequential requests in a settled world; each request's ordered (host, outcome) trace and final client frame must be accepted by a reference model written from the policy documentation (same-host once, next-host once/always/if idempotent, rotation order, each host once, hosts+1 bound, 'no more hosts' exactly on exhaustion), with the full field space of timeout/unavailable messages swept through the wire.", "§7 C05"),
  "C15": ("deterministic simulation at component level: load balancer driven by sim tasks with a yield at every lock/atomic operation; exhaustive small-scope sweep + seeded long and concurrent histories against a set-based model",
          "The real round-robin load balancer is driven through OnEvent/NewQueryPlan/Next: an exhaustive sweep of well-formed event histories over up to 4-5 hosts, seeded long histories, and concurrent planner tasks racing an event task under the token scheduler; every plan must yield some membership of its creation window exactly once, never a duplicate, with rotating starts and balanced first choices.", "§7 C15"),
+ "C08": ("deterministic simulation: PREPARE/EXECUTE/BATCH histories over several clients with node restarts, late-joining nodes (simulated refresh window), scripted re-prepare outcomes and a harness-owned prepared cache; wire oracle at the clients and the backends",
+         "Clients prepare statements and execute them until every host has been reached, across node restarts, nodes that join after start-up (topology event, refresh window on the fake clock), compressed sessions and scripted re-prepare failures; a client must never see UNPREPARED for an id the (harness-owned) cache holds, every EXECUTE/BATCH gets exactly one reply, and every frame the proxy sends while re-preparing must be decodable on its target connection.", "§7 C08"),
 }
 
 NOT_APPLICABLE = {
